@@ -165,6 +165,24 @@ def stepInject (st : St) (single : Bool) (tyW keyW impl : String) : St × String
     else if missingOracle then (st2, s!"DIFF model key string {sOf (ks.getD [])} has no oracle hash (canonical strings disagree)")
     else (st2, verdict model impl)
 
+/-- guard of the known finding `C34-float-literal-rounding`: the literal has more than 15 significant digits
+or its integer significand needs a power of ten beyond 10^22 — outside the range in which serde_json's
+default float parser (no `float_roundtrip`) is exact -/
+def floatLitOutsideExactRange (lit : String) : Bool :=
+  let m := if lit.startsWith "-" then (lit.drop 1).toString else lit
+  let (mant, ex) := match m.splitOn "e" with
+    | [a, b] => (a, b.toInt?.getD 0)
+    | _ => (m, 0)
+  let (ip, fr) := match mant.splitOn "." with
+    | [a, b] => (a, b)
+    | _ => (mant, "")
+  let frT := (fr.toList.reverse.dropWhile (· == '0')).reverse
+  let digits := (ip.toList ++ frT).dropWhile (· == '0')
+  let digits := if frT.isEmpty then (digits.reverse.dropWhile (· == '0')).reverse else digits
+  let trailingZerosOfInt := if frT.isEmpty then (ip.toList.reverse.takeWhile (· == '0')).length else 0
+  let e10 : Int := ex - frT.length + trailingZerosOfInt
+  decide (digits.length > 15) || decide (e10.natAbs > 22)
+
 def step (st : St) (line : String) : St × String :=
   let (op, impl?) := splitCase line
   let impl := impl?.getD ""
@@ -181,6 +199,15 @@ def step (st : St) (line : String) : St × String :=
     match decodeCodes codes, hv.toNat? with
     | some s, some v => ({ st with hs := (s, v) :: st.hs }, "")
     | _, _ => (st, "BADLINE")
+  | ["fkey", _lit] =>
+    -- float literal probe: the same literal through both paths must reach the same replica
+    (match impl.splitOn "," with
+     | [a, b] =>
+       (st, if a == b then "ok"
+            else if floatLitOutsideExactRange _lit then
+              s!"KNOWN[C34-float-literal-rounding] the same float literal reached {a} when injected singly and {b} in a batch"
+            else s!"JUDGE the same float literal reached {a} when injected singly and {b} in a batch")
+     | _ => (st, "BADLINE"))
   | ["inj", ty, key] => stepInject st true ty key impl
   | ["bat", ty, key] => stepInject st false ty key impl
   | [] => (st, "")
